@@ -17,7 +17,8 @@ import torch
 from simkit import core, minimise, repo, runner
 
 EXC_TYPES = ["RuntimeError", "KeyboardInterrupt", "ValueError"]
-SEAMS = ["forward", "backward", "refgen", "rule", "func", "shuffle_fn", "act_forward"]
+SEAMS = ["forward", "backward", "refgen", "rule", "func", "shuffle_fn", "act_forward",
+	"loss"]
 
 
 class C07(runner.Check):
@@ -94,11 +95,13 @@ class C07(runner.Check):
 				"marginalize", "ablate", "space", "substitution_effect",
 				"saturation_mutagenesis"]
 			case["op"] = mo.gen_op(r, mspec, ops=ops)
+			case["op"]["ambient"] = r.wchoice([None, "no_grad", "default_float64"], [6, 1, 1])
 			return case
 		f = S("faults")
 		ops = []
 		for _ in range(r.randint(2, 8)):
 			op = mo.gen_op(r, mspec)
+			op["ambient"] = r.wchoice([None, "no_grad", "default_float64"], [6, 1, 1])
 			fault = None
 			bad = None
 			if f.chance(0.35):
@@ -116,9 +119,16 @@ class C07(runner.Check):
 	def _exec(self, model, mspec, op, fault, bad):
 		"""Run one op under a fault plan; returns (status, result, plan)."""
 		from engines import modelworld as mw, modelops as mo
+		import contextlib
 		plan = mw.set_plan(mw.FaultPlan(fault))
+		amb = op.get("ambient")
+		ctx = torch.no_grad() if amb == "no_grad" else contextlib.nullcontext()
+		dd = torch.get_default_dtype()
 		try:
-			res = mo.run_op(model, mspec, op, bad=bad)
+			if amb == "default_float64":
+				torch.set_default_dtype(torch.float64)
+			with ctx:
+				res = mo.run_op(model, mspec, op, bad=bad)
 			status = "returned"
 		except BaseException as e:
 			if isinstance(e, (SystemExit, GeneratorExit)):
@@ -129,6 +139,7 @@ class C07(runner.Check):
 			plan.last_exc = "%s: %s" % (type(e).__name__, str(e)[:160])
 		finally:
 			plan.armed = False
+			torch.set_default_dtype(dd)
 		return status, res, plan
 
 	def _probe_inputs(self, mspec, seed):
